@@ -41,7 +41,7 @@ func (s *vfSM) fitsAlways() bool {
 	if !s.cfg.IgnoreIntern {
 		per += itemSize
 	}
-	return s.cfg.MaxCost >= int64(s.cfg.Keys)*per
+	return s.cfg.MaxCost >= int64(s.cfg.Keys)*per && !s.bigCost
 }
 
 // alsoC06: when everything fits, C06 claims every observable result equals the reference map with its FIFO.
@@ -415,6 +415,9 @@ func (s *vfSM) checkWaiters(vs *[]*vfViol, owner string) {
 // ---- model updates for client calls (shared by direct calls and the mid-sweep program) ----
 
 func (s *vfSM) modelSet(op *vfOp, ok bool, observedUpd bool, now time.Time, vs *[]*vfViol) {
+	if op.Cost > vfRoomyMaxCost {
+		s.bigCost = true // from here on "the whole key set fits" is not a premise of this case
+	}
 	tok := op.Tok
 	ti := s.toks[tok]
 	ti.issued = s.calls
@@ -1113,6 +1116,15 @@ func (s *vfSM) exec(op *vfOp) (vs []*vfViol) {
 		s.checkWaiters(&vs, "C06")
 	case "umc":
 		s.maxCost += op.Cost
+		if s.fitsAlways() {
+			per := int64(vfRoomyMaxCost)
+			if !s.cfg.IgnoreIntern {
+				per += itemSize
+			}
+			if s.maxCost < int64(s.cfg.Keys)*per {
+				s.bigCost = true // (same effect: the premise "everything fits" is gone for the rest of the case)
+			}
+		}
 		s.c.UpdateMaxCost(s.maxCost)
 		if s.twin != nil {
 			s.twin.c.UpdateMaxCost(s.maxCost)
